@@ -13,6 +13,7 @@ DECIDED = ("R1 every value that can reach the move component of search_with's re
            "the search while legal moves may exist); R3 (no panic) is the C07 obligation set restricted to Engine::search's call tree and is reported there.")
 DECIDED = DECIDED + ' R90 premises re-run here: C14 C14.R2, C14.R5; C16 C16.R2; C03 C03.R4, C03.R6.'
 DECIDED = DECIDED + ' R6 every exit of the deepening loop that is not a timeout exit (the stop on a mate score) is dominated by the store of the finished pass best move into the returned value.'
+DECIDED = DECIDED + ' R7 every panic / assert / unsafe site reachable from Engine::search is discharged (the C07 ledger restricted to the call tree of the search).'
 NOT_DECIDED = "termination of each pass as such (depends on the move generator being finite: C10) and 'returns a move whenever the first pass finished' beyond R5 (depends on scores)"
 EXPLANATION = "K2: reaching-definition closure (origins) of the returned move; loop/exit structure of the deepening loop; K4 table for the dispatch."
 
@@ -221,6 +222,18 @@ def r6(ctx):
             ctx.ob(f"exit@bb{n} behind the commit", ok, f"search_with can leave the deepening loop on {str(d)[:100]} (not the timeout) before the finished pass's best move was stored into the result: "
                    "the search returns no move although a pass completed", site=site, sample={"exit": str(d)[:60]})
     ctx.floor("non-timeout exits of the deepening loop", n, 1)
+
+
+@rule("C11.R7", "it never panics: every panic / assert / unsafe site reachable from Engine::search is discharged (C07 ledger restricted to the search's call tree)")
+def r7(ctx):
+    from rules import C07
+    P = ctx.P
+    roots = [P.find_fn("Engine::search", "chess_engine")]
+    sites, fns, probs = C07.discharge_subset(ctx, roots, "C11")
+    ctx.floor("functions reachable from Engine::search", len(fns), 20)
+    ctx.bulk("obligation sites below Engine::search", len(sites), [])
+    for pr in probs:
+        ctx.ob("totality:" + pr.split(":")[0][:80], False, "the search can reach an unchecked operation that is no longer discharged: " + pr[:300])
 
 
 @rule("C11.R90", 'premises shared with other properties: C14 (C14.R2, C14.R5); C16 (C16.R2); C03 (C03.R4, C03.R6)')
